@@ -178,7 +178,8 @@ def walk(w, prefix, start):
         for x in ms.responses:
             t = dav.resourcetypes(x) or frozenset()
             if any(tt.endswith("}" + key) for tt in t):
-                found[key].append(dav.resolve_href(home, x.href or ""))
+                # (compared as decoded paths: a server may percent-encode more than it has to)
+                found[key].append(urllib.parse.unquote(dav.resolve_href(home, x.href or "")))
     out["homes"] = homes
     out["found"] = found
     return out, None
@@ -274,7 +275,7 @@ def _config(args):
                     cd = last["found"]["addressbook"][0].rstrip("/") + "/card.vcf"
                     r1 = w.request("PUT", ev, {"Content-Type": B.CT_ICS}, B.CAL_BODIES["X"])
                     r2 = w.request("PUT", cd, {"Content-Type": B.CT_VCF}, B.CARD_BODIES["K"])
-                    if r1.status not in (201, 204) or r2.status not in (201, 204):
+                    if r1.status not in (200, 201, 204) or r2.status not in (200, 201, 204):
                         vio("cannot-write-to-discovered-collection:%s/%s" % (r1.status, r2.status), "PUT into the discovered collections answered %s / %s" % (r1.status, r2.status), {"event": ev, "card": cd})
                     else:
                         written[ev] = w.request("GET", ev).body
